@@ -34,12 +34,15 @@ cp _seeded/demo.py $OUT/demo.py 2>/dev/null; cp _seeded/notes.md $OUT/notes.md 2
 git apply -R $OUT/patch.diff   # (not git stash: the stash is shared between worktrees)
 /venv/bin/python _seeded/demo.py > $OUT/demo_without.txt 2>&1; DWO=$?
 git apply $OUT/patch.diff
+# SUITE_RESULT="<tests> <failures> <errors>": the suite was already run on this worktree with the change (tools/suite_in_wt.sh), do not repeat it
+if [ -n "$SUITE_RESULT" ]; then SUITE="$SUITE_RESULT"; else
 X=$(mktemp /tmp/junit.XXXX.xml)
 /venv/bin/python -m pytest -q -p no:cacheprovider --timeout=900 --junitxml=$X >/dev/null 2>&1
 SUITE=$(python3 -c "
 import xml.etree.ElementTree as ET
 r=ET.parse('$X').getroot(); ts=r if r.tag=='testsuite' else r[0]
 print(ts.get('tests'), ts.get('failures'), ts.get('errors'))"); rm -f $X
+fi
 echo "[$ID] demo with change: exit $DW ; without: exit $DWO ; suite (tests failures errors): $SUITE"
 cd /verif
 git -C /repo apply $OUT/patch.diff || { echo "patch does not apply to /repo"; exit 9; }
